@@ -530,3 +530,39 @@ Proof. rewrite mux_concat. cbn [map concat]. rewrite app_nil_r. reflexivity. Qed
    the size field the low 24 bits of the length *)
 Lemma trailer_n_spec len : len + 11 < 4294967296 -> mux_tag_trailer_n len = be4 (11 + len).
 Proof. intros H. unfold mux_tag_trailer_n. f_equal. unfold u32. lia. Qed.
+
+(* ---------- histories on one muxer / one demuxer ---------- *)
+Lemma write_tags_spec tags : forall st,
+  fold_left write_tag tags st = st ++ concat (map mux_tag_writes tags).
+Proof.
+  induction tags as [|t ts IH]; intros st; cbn [fold_left map concat].
+  - now rewrite app_nil_r.
+  - rewrite IH. unfold write_tag. now rewrite app_assoc.
+Qed.
+
+(* the state-passing muxer issues exactly the Write calls of [mux_writes] *)
+Theorem write_history_mux hv ha tags :
+  fold_left write_tag tags (write_header [] hv ha) = mux_writes hv ha tags.
+Proof. rewrite write_tags_spec. reflexivity. Qed.
+
+(* what earlier calls wrote is a prefix of the final state: later WriteTag calls (and whatever
+   the caller does with its buffers in between) do not change it *)
+Theorem write_history_prefix tags1 tags2 st :
+  fold_left write_tag (tags1 ++ tags2) st
+  = fold_left write_tag tags1 st ++ concat (map mux_tag_writes tags2).
+Proof. rewrite fold_left_app. apply write_tags_spec. Qed.
+
+(* tags already returned by the read loop stay as they were: the final list extends them *)
+Lemma read_tags_acc_prefix fuel : forall s acc r e,
+  read_tags fuel s acc = Ok (r, e) -> exists l, r = rev acc ++ l.
+Proof.
+  induction fuel as [|f IH]; intros s acc r e H; [discriminate|].
+  cbn [read_tags] in H.
+  destruct (read_tag_header s) as [[[[ty sz] ts] s1]|e1|x1].
+  - destruct (read_tag sz s1) as [[b s2]|e2|x2].
+    + destruct (IH _ _ _ _ H) as (l & ->). cbn [rev]. rewrite <- app_assoc. eauto.
+    + inversion H; subst. exists []. now rewrite frev_rev, app_nil_r.
+    + discriminate.
+  - inversion H; subst. exists []. now rewrite frev_rev, app_nil_r.
+  - discriminate.
+Qed.
